@@ -5,95 +5,101 @@ import PprofVerif.Model.MapRange
 Every `range` over a map in internal/graph, internal/report, internal/driver whose body appends to
 a slice, writes output, concatenates a string, accumulates a float or returns an iteration value —
 as listed by `tools/extract/mapranges.go` — with the reviewer's verdict.  `Props/C08.lean` checks
-by `decide` that the list regenerated from the current source equals `sites` below, so a new map
-walk (or a removed sort) breaks the obligation until it has been reviewed here.
-Reviewed against the pinned tree 1598eac (+ fixes/C08-less-strict-order.patch, which does not touch
-any of these sites).
+by `decide` that every site regenerated from the current source is one of `sites` below, so a new
+map walk, or a sort removed from a reviewed one (its record changes), breaks the obligation until it
+has been reviewed here; a site that disappears (map replaced by a slice) does not.
+Reviewed against the pinned tree 1598eac + fixes/C08-less-strict-order.patch (touches none of these
+sites) + fixes/C08-entropy-sum-order.patch (edgeEntropyScore).
 -/
 namespace PV.Spec.MapRangesExpected
 open PV.MapRange
 
 def reviewed : List Reviewed := [
-  -- line 222: range node.LabelTags
-  { site := { file := "internal/graph/dotgraph.go", fn := "builder.addNodelets", mapType := "map[string]*internal/graph.Tag", sink := "append:[]*internal/graph.Tag", sorted := true, flows := ["SORT:internal/graph.SortTags"] },
+  -- line 222: range node.LabelTags   then: SORT:internal/graph.SortTags
+  { site := { file := "internal/graph/dotgraph.go", fn := "builder.addNodelets", mapType := "map[string]*internal/graph.Tag", kind := .append, sink := "append:[]*internal/graph.Tag", sorted := true, returned := false },
     verdict := .sortedHere },
-  -- line 225: range node.NumericTags
-  { site := { file := "internal/graph/dotgraph.go", fn := "builder.addNodelets", mapType := "map[string]internal/graph.TagMap", sink := "append:[]*internal/graph.Tag (slot keyed by the iteration variable)", sorted := true, flows := ["SORT:(*internal/graph.builder).numericNodelets"] },
+  -- line 225: range node.NumericTags   then: SORT:(*internal/graph.builder).numericNodelets
+  { site := { file := "internal/graph/dotgraph.go", fn := "builder.addNodelets", mapType := "map[string]internal/graph.TagMap", kind := .append, sink := "append:[]*internal/graph.Tag (slot keyed by the iteration variable)", sorted := true, returned := false },
     verdict := .sortedHere },
-  -- line 226: range tm
-  { site := { file := "internal/graph/dotgraph.go", fn := "builder.addNodelets", mapType := "map[string]*internal/graph.Tag", sink := "append:[]*internal/graph.Tag (indexed slot)", sorted := true, flows := ["SORT:(*internal/graph.builder).numericNodelets"] },
+  -- line 226: range tm   then: SORT:(*internal/graph.builder).numericNodelets
+  { site := { file := "internal/graph/dotgraph.go", fn := "builder.addNodelets", mapType := "map[string]*internal/graph.Tag", kind := .append, sink := "append:[]*internal/graph.Tag (indexed slot)", sorted := true, returned := false },
     verdict := .sortedHere },
-  -- line 444: range parentNodeMap
-  { site := { file := "internal/graph/graph.go", fn := "newTree", mapType := "map[*internal/graph.Node]internal/graph.NodeMap", sink := "append:internal/graph.Nodes", sorted := false, flows := ["return", "internal/graph.selectNodesForGraph"] },
+  -- line 444: range parentNodeMap   then: return, internal/graph.selectNodesForGraph
+  { site := { file := "internal/graph/graph.go", fn := "newTree", mapType := "map[*internal/graph.Node]internal/graph.NodeMap", kind := .append, sink := "append:internal/graph.Nodes", sorted := false, returned := true },
     verdict := .sortedByConsumer "report.newTrimmedGraph sorts Graph.Nodes (Graph.SortNodes → Nodes.Sort) before every printer; selectNodesForGraph only filters" },
-  -- line 530: range s.Label
-  { site := { file := "internal/graph/graph.go", fn := "joinLabels", mapType := "map[string][]string", sink := "append:[]string", sorted := true, flows := ["SORT:sort.Strings", "return", "strings.Join"] },
+  -- line 530: range s.Label   then: SORT:sort.Strings, return, strings.Join
+  { site := { file := "internal/graph/graph.go", fn := "joinLabels", mapType := "map[string][]string", kind := .append, sink := "append:[]string", sorted := true, returned := true },
     verdict := .sortedHere },
-  -- line 574: range nm
-  { site := { file := "internal/graph/graph.go", fn := "NodeMap.nodes", mapType := "map[internal/graph.NodeInfo]*internal/graph.Node", sink := "append:internal/graph.Nodes", sorted := false, flows := ["return"] },
+  -- line 574: range nm   then: return
+  { site := { file := "internal/graph/graph.go", fn := "NodeMap.nodes", mapType := "map[internal/graph.NodeInfo]*internal/graph.Node", kind := .append, sink := "append:internal/graph.Nodes", sorted := false, returned := true },
     verdict := .sortedByConsumer "CreateNodes/newGraph/newTree hand the list to selectNodesForGraph; report.newTrimmedGraph sorts Graph.Nodes before every printer; printTraces uses only the per-location lists (line order)" },
-  -- line 725: range n.In
-  { site := { file := "internal/graph/graph.go", fn := "Graph.String", mapType := "map[*internal/graph.Node]*internal/graph.Edge", sink := "append:[]int", sorted := false, flows := ["fmt.Sprintf", "return", "strings.Join"] },
+  -- line 725: range n.In   then: fmt.Sprintf, return, strings.Join
+  { site := { file := "internal/graph/graph.go", fn := "Graph.String", mapType := "map[*internal/graph.Node]*internal/graph.Edge", kind := .append, sink := "append:[]int", sorted := false, returned := true },
     verdict := .notReportOutput "Graph.String is a debugging aid used by the package tests only" },
-  -- line 728: range n.Out
-  { site := { file := "internal/graph/graph.go", fn := "Graph.String", mapType := "map[*internal/graph.Node]*internal/graph.Edge", sink := "append:[]int", sorted := false, flows := ["fmt.Sprintf", "return", "strings.Join"] },
+  -- line 728: range n.Out   then: fmt.Sprintf, return, strings.Join
+  { site := { file := "internal/graph/graph.go", fn := "Graph.String", mapType := "map[*internal/graph.Node]*internal/graph.Edge", kind := .append, sink := "append:[]int", sorted := false, returned := true },
     verdict := .notReportOutput "Graph.String is a debugging aid used by the package tests only" },
-  -- line 918: range n.In
-  { site := { file := "internal/graph/graph.go", fn := "isRedundantEdge", mapType := "map[*internal/graph.Node]*internal/graph.Edge", sink := "append:internal/graph.Nodes", sorted := false, flows := [] },
+  -- line 918: range n.In   then: 
+  { site := { file := "internal/graph/graph.go", fn := "isRedundantEdge", mapType := "map[*internal/graph.Node]*internal/graph.Edge", kind := .append, sink := "append:internal/graph.Nodes", sorted := false, returned := false },
     verdict := .orderIrrelevant "breadth-first reachability query: the boolean result does not depend on the visiting order" },
-  -- line 1093: range edges
-  { site := { file := "internal/graph/graph.go", fn := "edgeEntropyScore", mapType := "map[*internal/graph.Node]*internal/graph.Edge", sink := "floatsum:float64", sorted := false, flows := [] },
-    verdict := .hunted "float64 addition is not associative: the last ulp of entropyScore, and through int64(score*cum) the EntropyOrder position and the visual-mode top-N cut, can depend on the map seed; the -dot oracle byte-compares repeated runs on many-edge tie-rich graphs" },
-  -- line 1124: range e
-  { site := { file := "internal/graph/graph.go", fn := "EdgeMap.Sort", mapType := "map[*internal/graph.Node]*internal/graph.Edge", sink := "append:internal/graph.edgeList", sorted := true, flows := ["SORT:sort.Sort", "return"] },
+  -- range edges (edgeEntropyScore)   then: SORT:sort.Float64s
+  -- Since fixes/C08-entropy-sum-order.patch the -f·log2(f) terms are collected, sorted and only then
+  -- added.  Before it the body accumulated a float64 sum in map order (sink `floatsum:float64`, NOT in
+  -- this list): float addition is not associative, so the last ulp of entropyScore — and with weights
+  -- around 1e14 the integer int64(score*cum), hence the EntropyOrder position of nodes with equal exact
+  -- score and the N-numbering of `-dot` — depended on the map seed (reproduced: strategy entropy-twins).
+  { site := { file := "internal/graph/graph.go", fn := "edgeEntropyScore", mapType := "map[*internal/graph.Node]*internal/graph.Edge", kind := .append, sink := "append:[]float64", sorted := true, returned := false },
     verdict := .sortedHere },
-  -- line 252: range s.NumLabel
-  { site := { file := "internal/report/report.go", fn := "Report.newGraph", mapType := "map[string][]int64", sink := "append:[]int64 (slot keyed by the iteration variable)", sorted := false, flows := [] },
+  -- line 1124: range e   then: SORT:sort.Sort, return
+  { site := { file := "internal/graph/graph.go", fn := "EdgeMap.Sort", mapType := "map[*internal/graph.Node]*internal/graph.Edge", kind := .append, sink := "append:internal/graph.edgeList", sorted := true, returned := true },
+    verdict := .sortedHere },
+  -- line 252: range s.NumLabel   then: 
+  { site := { file := "internal/report/report.go", fn := "Report.newGraph", mapType := "map[string][]int64", kind := .append, sink := "append:[]int64 (slot keyed by the iteration variable)", sorted := false, returned := false },
     verdict := .orderIrrelevant "each key is appended exactly once to its own slot of a fresh map" },
-  -- line 252: range s.NumLabel
-  { site := { file := "internal/report/report.go", fn := "Report.newGraph", mapType := "map[string][]int64", sink := "append:[]string (slot keyed by the iteration variable)", sorted := false, flows := [] },
+  -- line 252: range s.NumLabel   then: 
+  { site := { file := "internal/report/report.go", fn := "Report.newGraph", mapType := "map[string][]int64", kind := .append, sink := "append:[]string (slot keyed by the iteration variable)", sorted := false, returned := false },
     verdict := .orderIrrelevant "each key is appended exactly once to its own slot of a fresh map" },
-  -- line 410: range symNodes
-  { site := { file := "internal/report/report.go", fn := "PrintAssembly", mapType := "map[*internal/report.objSymbol]internal/graph.Nodes", sink := "append:[]*internal/report.objSymbol", sorted := true, flows := ["SORT:sort.Sort"] },
+  -- line 410: range symNodes   then: SORT:sort.Sort
+  { site := { file := "internal/report/report.go", fn := "PrintAssembly", mapType := "map[*internal/report.objSymbol]internal/graph.Nodes", kind := .append, sink := "append:[]*internal/report.objSymbol", sorted := true, returned := false },
     verdict := .sortedHere },
-  -- line 740: range tagMap
-  { site := { file := "internal/report/report.go", fn := "printTags", mapType := "map[string]map[string]int64", sink := "append:[]*internal/graph.Tag", sorted := true, flows := ["SORT:internal/graph.SortTags"] },
+  -- line 740: range tagMap   then: SORT:internal/graph.SortTags
+  { site := { file := "internal/report/report.go", fn := "printTags", mapType := "map[string]map[string]int64", kind := .append, sink := "append:[]*internal/graph.Tag", sorted := true, returned := false },
     verdict := .sortedHere },
-  -- line 747: range tagMap[key]
-  { site := { file := "internal/report/report.go", fn := "printTags", mapType := "map[string]int64", sink := "append:[]*internal/graph.Tag", sorted := true, flows := ["SORT:internal/graph.SortTags"] },
+  -- line 747: range tagMap[key]   then: SORT:internal/graph.SortTags
+  { site := { file := "internal/report/report.go", fn := "printTags", mapType := "map[string]int64", kind := .append, sink := "append:[]*internal/graph.Tag", sorted := true, returned := false },
     verdict := .sortedHere },
-  -- line 885: range sample.Label
-  { site := { file := "internal/report/report.go", fn := "printTraces", mapType := "map[string][]string", sink := "append:[]string", sorted := true, flows := ["SORT:sort.Strings", "fmt.Fprint", "strings.Join"] },
+  -- line 885: range sample.Label   then: SORT:sort.Strings, fmt.Fprint, strings.Join
+  { site := { file := "internal/report/report.go", fn := "printTraces", mapType := "map[string][]string", kind := .append, sink := "append:[]string", sorted := true, returned := false },
     verdict := .sortedHere },
-  -- line 893: range sample.NumLabel
-  { site := { file := "internal/report/report.go", fn := "printTraces", mapType := "map[string][]int64", sink := "append:[]string", sorted := true, flows := ["SORT:sort.Strings", "fmt.Fprint", "strings.Join"] },
+  -- line 893: range sample.NumLabel   then: SORT:sort.Strings, fmt.Fprint, strings.Join
+  { site := { file := "internal/report/report.go", fn := "printTraces", mapType := "map[string][]int64", kind := .append, sink := "append:[]string", sorted := true, returned := false },
     verdict := .sortedHere },
-  -- line 549: range addrMap
-  { site := { file := "internal/report/source.go", fn := "sourcePrinter.splitIntoRanges", mapType := "map[uint64]internal/report.addrInfo", sink := "append:[]uint64", sorted := true, flows := ["SORT:sort.Slice", "return"] },
+  -- line 549: range addrMap   then: SORT:sort.Slice, return
+  { site := { file := "internal/report/source.go", fn := "sourcePrinter.splitIntoRanges", mapType := "map[uint64]internal/report.addrInfo", kind := .append, sink := "append:[]uint64", sorted := true, returned := true },
     verdict := .sortedHere },
-  -- line 549: range addrMap
-  { site := { file := "internal/report/source.go", fn := "sourcePrinter.splitIntoRanges", mapType := "map[uint64]internal/report.addrInfo", sink := "append:[]uint64", sorted := false, flows := ["return"] },
+  -- line 549: range addrMap   then: return
+  { site := { file := "internal/report/source.go", fn := "sourcePrinter.splitIntoRanges", mapType := "map[uint64]internal/report.addrInfo", kind := .append, sink := "append:[]uint64", sorted := false, returned := true },
     verdict := .orderIrrelevant "weblist only: handleUnprocessed stores each address under its own map key and addStack accumulates per-address sums" },
-  -- line 629: range sp.files
-  { site := { file := "internal/report/source.go", fn := "sourcePrinter.generate", mapType := "map[string]*internal/report.sourceFile", sink := "append:[]*internal/report.sourceFile", sorted := true, flows := ["return", "SORT:sort.Slice"] },
+  -- line 629: range sp.files   then: return, SORT:sort.Slice
+  { site := { file := "internal/report/source.go", fn := "sourcePrinter.generate", mapType := "map[string]*internal/report.sourceFile", kind := .append, sink := "append:[]*internal/report.sourceFile", sorted := true, returned := true },
     verdict := .sortedHere },
-  -- line 721: range f.lines
-  { site := { file := "internal/report/source.go", fn := "sourcePrinter.functions", mapType := "map[int][]internal/report.sourceInst", sink := "append:[]int", sorted := true, flows := ["SORT:sort.Ints"] },
+  -- line 721: range f.lines   then: SORT:sort.Ints
+  { site := { file := "internal/report/source.go", fn := "sourcePrinter.functions", mapType := "map[int][]internal/report.sourceInst", kind := .append, sink := "append:[]int", sorted := true, returned := false },
     verdict := .sortedHere },
-  -- line 233: range bools
-  { site := { file := "internal/driver/cli.go", fn := "installConfigFlags", mapType := "map[string]*bool", sink := "append:[]string", sorted := false, flows := ["fmt.Errorf"] },
+  -- line 233: range bools   then: fmt.Errorf
+  { site := { file := "internal/driver/cli.go", fn := "installConfigFlags", mapType := "map[string]*bool", kind := .append, sink := "append:[]string", sorted := false, returned := false },
     verdict := .notReportOutput "text of the usage error `conflicting options set: [...]` for mutually exclusive flags (stderr, no report is produced)" },
-  -- line 270: range pprofCommands
-  { site := { file := "internal/driver/commands.go", fn := "usage", mapType := "map[string]*internal/driver.command", sink := "append:[]string", sorted := true, flows := ["SORT:sort.Strings", "strings.Join"] },
+  -- line 270: range pprofCommands   then: SORT:sort.Strings, strings.Join
+  { site := { file := "internal/driver/commands.go", fn := "usage", mapType := "map[string]*internal/driver.command", kind := .append, sink := "append:[]string", sorted := true, returned := false },
     verdict := .sortedHere },
-  -- line 287: range configFieldMap
-  { site := { file := "internal/driver/config.go", fn := "completeConfig", mapType := "map[string]internal/driver.configField", sink := "append:[]string", sorted := false, flows := ["return"] },
+  -- line 287: range configFieldMap   then: return
+  { site := { file := "internal/driver/config.go", fn := "completeConfig", mapType := "map[string]internal/driver.configField", kind := .append, sink := "append:[]string", sorted := false, returned := true },
     verdict := .orderIrrelevant "interactive completion: the only caller (matchVariableOrCommand) uses the result when the combined list has exactly one element" },
-  -- line 268: range ms
-  { site := { file := "internal/driver/fetch.go", fn := "combineProfiles", mapType := "map[string][]struct{Source string; Start uint64}", sink := "append:[]struct{Source string; Start uint64} (slot keyed by the iteration variable)", sorted := false, flows := ["return"] },
+  -- line 268: range ms   then: return
+  { site := { file := "internal/driver/fetch.go", fn := "combineProfiles", mapType := "map[string][]struct{Source string; Start uint64}", kind := .append, sink := "append:[]struct{Source string; Start uint64} (slot keyed by the iteration variable)", sorted := false, returned := true },
     verdict := .orderIrrelevant "per-key slots; the outer loop runs over the slice of sources in command-line order" },
-  -- line 384: range pprofCommands
-  { site := { file := "internal/driver/interactive.go", fn := "matchVariableOrCommand", mapType := "map[string]*internal/driver.command", sink := "append:[]string", sorted := false, flows := ["return"] },
+  -- line 384: range pprofCommands   then: return
+  { site := { file := "internal/driver/interactive.go", fn := "matchVariableOrCommand", mapType := "map[string]*internal/driver.command", kind := .append, sink := "append:[]string", sorted := false, returned := true },
     verdict := .orderIrrelevant "the result is used only when there is exactly one match" }
 ]
 
